@@ -797,8 +797,11 @@ do_op(const Op& op, std::vector<OProj>* post)
             s1 = make_string(a[2], a[3], a[4]);
             s2 = make_string(a[5], a[6], a[7]);
             break;
-        case 5:
         case 9:
+            if (a[3] == 9)
+                break;
+            // fallthrough
+        case 5:
             s1 = make_string(a[3], a[4], a[5]);
             break;
     }
@@ -841,8 +844,14 @@ do_op(const Op& op, std::vector<OProj>* post)
             case 9: {
                 in_lib = 0;
                 struct String* S = a[2] == 2 ? &self->external_metadata_json : &self->uri;
-                S->str = (char*)s1.p;
-                S->nbytes = s1.n;
+                if (a[3] == 9) { // alias: the client points the field at the same field of object a[4] (as a shallow struct copy does)
+                    const struct String* T = a[2] == 2 ? &P[a[4]].external_metadata_json : &P[a[4]].uri;
+                    S->str = T->str;
+                    S->nbytes = T->nbytes;
+                } else {
+                    S->str = (char*)s1.p;
+                    S->nbytes = s1.n;
+                }
                 S->is_ref = 1;
             } break;
         }
@@ -1110,9 +1119,29 @@ cmd_random(int argc, char** argv)
             } else {
                 int fld = 1 + g.below(2);
                 const struct String* S = fld == 2 ? &P[o].external_metadata_json : &P[o].uri;
+                int s2 = g.below(nobj - 1);
+                if (s2 >= o)
+                    ++s2;
+                const struct String* T = fld == 2 ? &P[s2].external_metadata_json : &P[s2].uri;
                 if (S->str && !S->is_ref) {
                     op.v[0] = 6;
                     op.v[2] = 1;
+                } else if (g.below(3) == 0 && T->str && !T->is_ref) {
+                    // the destination's field refers to the source's own buffer (a shallow struct copy made by the client),
+                    // then the source is copied over it: the copy has to stop sharing
+                    op.v[0] = 9;
+                    op.v[2] = fld;
+                    op.v[3] = 9;
+                    op.v[4] = s2;
+                    ++n_steps;
+                    if (do_op(op, 0) == -1000) {
+                        crashed = true;
+                        break;
+                    }
+                    memset(&op, 0, sizeof op);
+                    op.v[0] = 7;
+                    op.v[1] = o;
+                    op.v[2] = s2;
                 } else {
                     op.v[0] = 9;
                     op.v[2] = fld;
